@@ -65,6 +65,15 @@ class Const(T):
         return f"Const({self.value!r})"
 
 
+class ClassOf(T):
+    """The class object itself (the `cls` argument of a classmethod under contract)."""
+    def __init__(self, name: str) -> None:
+        self.name = name
+
+    def __repr__(self) -> str:
+        return f"ClassOf({self.name})"
+
+
 class Opt(T):
     """None or T: forks into two configurations."""
     def __init__(self, inner: T) -> None:
